@@ -546,3 +546,69 @@ func VerifC05_TaskStartedDuringStop() {
 	rt.Assert(!ranAfterReport, "taskduringstop/task-never-starts-after-the-stop-report")
 	rt.Reach("taskduringstop-end")
 }
+
+// ---- a task that is executing when its module is stopped is running work:
+// the stop report arrives only after its function has returned ----
+
+func VerifC05_StopWaitsForRunningTask() {
+	rt.NoTimers()
+	rt.SchedYieldOnly(true)
+	SetStdErrReporting(false)
+	c05Reset()
+	sleepMode.UnSet()
+	taskQueue = list.New()
+	prioritizedTaskQueue = list.New()
+	taskSchedule = list.New()
+	if rt.Symbolic() {
+		taskQueueHandlerStarted.UnSet()
+		taskScheduleHandlerStarted.UnSet()
+	}
+	for len(queueIsFilled) > 0 {
+		<-queueIsFilled
+	}
+	moduleStopTimeout = time.Hour
+	stopFnSawCancelled := false
+	var m *Module
+	m = initNewModule("m", nil, nil, func() error {
+		stopFnSawCancelled = m.Ctx.Err() != nil
+		return nil
+	})
+	m.status = StatusOnline
+	close(m.startComplete)
+	entered := make(chan struct{}, 1)
+	returned := false
+	t := m.NewTask("t", func(ctx context.Context, _ *Task) error {
+		entered <- struct{}{}
+		<-ctx.Done()
+		rt.NativePause() // it takes the function a moment to return after the cancellation
+		for i := 0; i < 5; i++ {
+			rt.Yield() // (the rest of the system may do anything meanwhile)
+		}
+		returned = true
+		return nil
+	}).MaxDelay(0)
+	switch rt.Choice("submission", 3) {
+	case 0:
+		t.Queue()
+	case 1:
+		t.QueuePrioritized()
+	case 2:
+		t.StartASAP()
+	}
+	go func() {
+		for {
+			taskTimeslot <- struct{}{}
+		}
+	}()
+	go taskQueueHandler()
+	<-entered
+	reports := make(chan *report, 1)
+	m.stop(reports)
+	rep := <-reports
+	rt.Assert(rep.err == nil, "stoptask/stop-ok")
+	rt.Assert(returned, "stoptask/running-task-returned-before-the-stop-report")
+	rt.Assert(stopFnSawCancelled, "stoptask/context-cancelled-before-the-stop-routine")
+	rt.Assert(m.Status() == StatusOffline, "stoptask/offline-at-report")
+	rt.Assert(atomic.LoadInt32(m.taskCnt) == 0, "stoptask/task-counter-zero")
+	rt.Reach("stoptask-end")
+}
